@@ -21,9 +21,9 @@ struct Params { int jt, et; double delta, ml, at; int rs; };
 Paths64 do_offset(const Paths64& in, const Params& p) {
   ClipperOffset co(p.ml, p.at, false, p.rs != 0); co.AddPaths(in, (JoinType)p.jt, (EndType)p.et); Paths64 sol; co.Execute(p.delta, sol); return sol;
 }
-void emit(std::ostream& os, const Paths64& in, const Params& p, long long pseed, int npts, long long& ncalls) {
+void emit(std::ostream& os, const Paths64& in, const Params& p, long long pseed, int npts, long long& ncalls, int sc = 4) {
   Rng pr((uint64_t)pseed);
-  std::string what = "\"case\":{\"paths\":" + jpaths(in) + ",\"jt\":" + jnum(p.jt) + ",\"et\":" + jnum(p.et) + ",\"d4\":" + jnum(std::llround(p.delta * 4)) + ",\"ml100\":" + jnum(std::llround(p.ml * 100)) + ",\"at4\":" + jnum(std::llround(p.at * 4)) + ",\"rs\":" + jnum(p.rs) + ",\"pseed\":" + jnum(pseed) + "}";
+  std::string what = "\"case\":{\"paths\":" + jpaths(in) + ",\"jt\":" + jnum(p.jt) + ",\"et\":" + jnum(p.et) + ",\"d4\":" + jnum(std::llround(p.delta * sc)) + ",\"ml100\":" + jnum(std::llround(p.ml * 100)) + ",\"at4\":" + jnum(std::llround(p.at * sc)) + ",\"sc\":" + jnum(sc) + ",\"rs\":" + jnum(p.rs) + ",\"pseed\":" + jnum(pseed) + "}";
   ++ncalls;
   guarded(os, what, 60, [&](std::ostream& os) {
     Paths64 sol = do_offset(in, p);
@@ -38,13 +38,13 @@ void emit(std::ostream& os, const Paths64& in, const Params& p, long long pseed,
     while ((int)pts.size() < npts && guard++ < 100000) {
       Point64 c;
       if (pts.size() % 2 == 0 && !in.empty()) { const Path64& path = in[pr.range(0, (int64_t)in.size() - 1)]; if (path.empty()) continue; const Point64& a = path[pr.range(0, (int64_t)path.size() - 1)]; const Point64& b = path[pr.range(0, (int64_t)path.size() - 1)];
-        int64_t t = pr.range(0, 8); c = Point64((int64_t)((a.x * (8 - t) + b.x * t) / 2 + pr.range(-mg * 4, mg * 4)), (int64_t)((a.y * (8 - t) + b.y * t) / 2 + pr.range(-mg * 4, mg * 4))); }
-      else c = Point64((int64_t)pr.range((lx - mg) * 4, (hx + mg) * 4), (int64_t)pr.range((ly - mg) * 4, (hy + mg) * 4));
+        int64_t t = pr.range(0, 8); c = Point64((int64_t)((a.x * (8 - t) + b.x * t) * sc / 8 + pr.range(-mg * sc, mg * sc)), (int64_t)((a.y * (8 - t) + b.y * t) * sc / 8 + pr.range(-mg * sc, mg * sc))); }
+      else c = Point64((int64_t)pr.range((lx - mg) * sc, (hx + mg) * sc), (int64_t)pr.range((ly - mg) * sc, (hy + mg) * sc));
       if (seen.insert({c.x, c.y}).second) pts.push_back(c);
     }
     i128 a2 = 0; for (auto& s : sol) a2 += area2_of(s);
-    Ev e("Off"); e.kv("paths", jpaths(in)).kn("jt", p.jt).kn("et", p.et).kn("d4", std::llround(p.delta * 4)).kn("ml100", std::llround(p.ml * 100)).kn("at4", std::llround(p.at * 4)).kn("rs", p.rs).kn("pseed", pseed)
-      .kv("pts", jpath(pts)).kv("cover", jints(cover_at(sol, pts, 4, emb_table()[0]))).kn("n", (long long)sol.size()).kn("eqneg", eqneg).kn("area2s", a2 > 0 ? 1 : a2 < 0 ? -1 : 0);
+    Ev e("Off"); e.kv("paths", jpaths(in)).kn("jt", p.jt).kn("et", p.et).kn("d4", std::llround(p.delta * sc)).kn("ml100", std::llround(p.ml * 100)).kn("at4", std::llround(p.at * sc)).kn("sc", sc).kn("rs", p.rs).kn("pseed", pseed)
+      .kv("pts", jpath(pts)).kv("cover", jints(cover_at(sol, pts, sc, emb_table()[0]))).kn("n", (long long)sol.size()).kn("eqneg", eqneg).kn("area2s", a2 > 0 ? 1 : a2 < 0 ? -1 : 0);
     os << e.str() << "\n";
   });
 }
@@ -56,12 +56,25 @@ int cmd_off(const Args& a) {
   static const double deltas[] = {0.25, 1, 3, 7, 15, 25}; static const double mls[] = {1, 2, 2, 5}; static const double ats[] = {0, 0, 0.25, 2};
   if (!inf.empty()) {   // replay: one line = the "case" object of a Crash / failing event
     std::ifstream in(inf); std::string line;
-    while (std::getline(in, line)) { JV v = jparse(line); Params p{(int)v["jt"].i(), (int)v["et"].i(), v["d4"].i() / 4.0, v["ml100"].i() / 100.0, v["at4"].i() / 4.0, (int)v["rs"].i()}; Paths64 in2 = paths_from(v["paths"]); emit(os, in2, p, v["pseed"].i(), npts, ncalls); }
+    while (std::getline(in, line)) { JV v = jparse(line); int sc = v.has("sc") ? (int)v["sc"].i() : 4; Params p{(int)v["jt"].i(), (int)v["et"].i(), v["d4"].i() / (double)sc, v["ml100"].i() / 100.0, v["at4"].i() / (double)sc, (int)v["rs"].i()}; Paths64 in2 = paths_from(v["paths"]); emit(os, in2, p, v["pseed"].i(), npts, ncalls, sc); }
     return 0;
   }
   for (long long b = 0; b < n; ++b) {
     Paths64 in;
-    if (kind == "poly") {
+    if (kind == "poly" && b % 4 == 3) {
+      // finely tessellated curves (turn per vertex 1.5 - 4 degrees): a disc, or a plate with a round hole; deltas around and beyond the radius
+      int rr = (int)r.range(1800, 2500), N = (int)r.pick(std::vector<int>{180, 240, 300}); bool plate = r.coin(); const int64_t cc = 12000;
+      Path64 disc; for (int i = 0; i < N; ++i) { double a2 = 2 * PI_ * i / N; disc.emplace_back((int64_t)std::llround(cc + rr * std::cos(a2)), (int64_t)std::llround(cc + rr * std::sin(a2))); }
+      if (plate) { in.push_back(Path64{{cc - 2 * rr, cc - 2 * rr}, {cc + 2 * rr, cc - 2 * rr}, {cc + 2 * rr, cc + 2 * rr}, {cc - 2 * rr, cc + 2 * rr}}); std::reverse(disc.begin(), disc.end()); }
+      in.push_back(disc);
+      if (r.coin()) for (auto& p : in) std::reverse(p.begin(), p.end());
+      for (int j = 0; j < 4; ++j) {
+        double mag = (j % 2 == 0 ? 1.5 : 0.4) * rr; double sgn = (j < 2) == plate ? 1.0 : -1.0;       // j<2: the direction in which the round feature collapses
+        static const double mls2[] = {1, 2, 2, 1.5};
+        Params p{(int)r.range(0, 3), 0, sgn * std::floor(mag), mls2[r.range(0, 3)], ats[r.range(0, 3)], 0};
+        emit(os, in, p, (long long)((argi(a, "seed", 1) % 100000) * 10000 + (b % 100) * 100 + 50 + j), npts, ncalls, 1);
+      }
+    } else if (kind == "poly") {
       Path64 outer = star(r, 40, 40, (int)r.range(4, 9), 14, 36); if (!turn_ok_path(outer, true)) { continue; }
       in.push_back(outer);
       int holes = (int)r.range(0, 2) == 0 ? 1 : 0;
